@@ -298,12 +298,76 @@ def _bulk_form(s, used_outside, counter):
     return loop
 
 
+def _hoist_ifexp(s, taken, counter):
+    """`f(x, a if c else b)` (statement) -> `if c: _t = a  else: _t = b` +
+    `f(x, _t)` when the conditional expression is evaluated unconditionally
+    and only loads of names / constants / attribute chains come before it (the
+    same side condition as sa/foldtemps.py, whose inverse this is)."""
+    from .foldtemps import _eval_order, _root_of
+    hf = _root_of(s)
+    if hf is None or isinstance(s, ast.If):
+        return None
+    holder, field = hf
+    root = getattr(holder, field)
+    if isinstance(root, ast.IfExp):
+        return None              # the statement forms handle these
+    order = []
+    _eval_order(root, order)
+    for k, (x, cond) in enumerate(order):
+        if isinstance(x, ast.IfExp) and not cond:
+            inner = {id(n) for n in ast.walk(x)}
+            before = [y for y, c in order[:k] if id(y) not in inner]
+            if any(not isinstance(y, (ast.Name, ast.Constant, ast.Attribute))
+                   for y in before):
+                return None
+            counter[0] += 1
+            nm = "_ifx__%d" % counter[0]
+            while nm in taken:
+                counter[0] += 1
+                nm = "_ifx__%d" % counter[0]
+            taken.add(nm)
+
+            class Sub(ast.NodeTransformer):
+                def visit_IfExp(self, n):
+                    if n is x:
+                        return ast.copy_location(
+                            ast.Name(id=nm, ctx=ast.Load()), n)
+                    return self.generic_visit(n)
+            setattr(holder, field, Sub().visit(root))
+
+            def mk(v):
+                return ast.copy_location(ast.Assign(
+                    targets=[ast.Name(id=nm, ctx=ast.Store())], value=v,
+                    lineno=s.lineno), s)
+            pre = ast.copy_location(ast.If(test=x.test, body=[mk(x.body)],
+                                           orelse=[mk(x.orelse)]), s)
+            ast.fix_missing_locations(pre)
+            ast.fix_missing_locations(s)
+            return [pre, s]
+    return None
+
+
 def desugar_function(fn):
     counter = [0]
     done = [0]
+    taken = _names(fn)
 
     def block(stmts):
         out = []
+        stmts = list(stmts)
+        i = 0
+        while i < len(stmts):
+            h = _hoist_ifexp(stmts[i], taken, counter) if any(
+                isinstance(n, ast.IfExp) for n in ast.walk(stmts[i])) and \
+                not isinstance(stmts[i], (ast.FunctionDef, ast.ClassDef,
+                                          ast.AsyncFunctionDef, ast.For,
+                                          ast.While, ast.With, ast.Try)) \
+                else None
+            if h is not None:
+                stmts[i:i + 1] = h
+                done[0] += 1
+                continue
+            i += 1
         for s in stmts:
             for field in ("body", "orelse", "finalbody"):
                 blk = getattr(s, field, None)
